@@ -707,7 +707,7 @@ func checkGenesisFragments(rt *rapid.T, rec *evi.Recorder) {
 	inter := uint64(rapid.IntRange(0, 50).Draw(rt, "inter"))
 	for i := range frs {
 		if libFrag {
-			f := &genesis.SimpleChainFragment{Intersection: inter, Tip: inter + uint64(rapid.IntRange(0, 60).Draw(rt, "span")), Blocks: uint64(rapid.IntRange(0, 8).Draw(rt, "blocks"))}
+			f := &genesis.SimpleChainFragment{Intersection: inter, Tip: inter + uint64(rapid.IntRange(0, 60).Draw(rt, "span")), Blocks: uint64(rapid.IntRange(0, 30).Draw(rt, "blocks"))}
 			frs[i] = f
 			descs[i] = fmt.Sprintf("{lib inter=%d tip=%d blocks=%d}", f.Intersection, f.Tip, f.Blocks)
 		} else {
@@ -717,6 +717,9 @@ func checkGenesisFragments(rt *rapid.T, rec *evi.Recorder) {
 				f.slots[j] = inter + uint64(rapid.IntRange(0, 50).Draw(rt, "off"))
 			}
 			f.blocks = uint64(m) + uint64(rapid.IntRange(0, 2).Draw(rt, "extraBlocks"))
+			if rapid.Bool().Draw(rt, "longTail") { // many blocks beyond the slots listed (e.g. far past the window)
+				f.blocks += uint64(rapid.IntRange(0, 30).Draw(rt, "tailBlocks"))
+			}
 			frs[i] = f
 			descs[i] = fmt.Sprintf("{h inter=%d slots=%v blocks=%d}", f.inter, f.slots, f.blocks)
 		}
